@@ -205,6 +205,8 @@ def run_config(conf, names, seed, is_quick, findings, counters, records):
                 findings.append(_f("expectations", "bandit %s: Simulator reports expectations %s, the public API gives %s"
                                    % (name, _short(rep), _short(exps)), dict(where, bandit=name)))
     # ---- C16: record the public attributes for TraceSim -----------------------------------------------------
+    if conf.get("no_record"):
+        return
     try:
         records.append(record(sim, names, labels, rewards, conf, test_idx, is_quick))
     except ValueError as error:
